@@ -20,6 +20,31 @@ pub proof fn lemma_or_via_and(a: Felt, b: Felt)
     let x = a.val() as u64; let y = b.val() as u64;
     assert(x < 0x1_0000_0000 && y < 0x1_0000_0000 ==> (x | y) == x + y - (x & y) && (x & y) < 0x1_0000_0000 && (x & y) <= x && (x & y) <= y) by (bit_vector);
 }
+/// the term the lemma generator's normal form carries for one limb of the OR expansion
+pub open spec fn or_form(a: Felt, b: Felt) -> Felt {
+    fe(fadd(a.val(), fe(fadd(b.val(), fe(fneg(fe(((a.val() as u64) & (b.val() as u64)) as int).val())).val())).val()))
+}
+/// one limb of the OR expansion (DUP1 DUP1 U32AND NEG ADD ADD): a + (b + (-(a AND b))) in the field is a OR b
+pub proof fn lemma_or_limb(a: Felt, b: Felt)
+    requires is_u32(a), is_u32(b)
+    ensures
+        fadd(a.val(), fadd(b.val(), fneg(band(a, b)))) == bor(a, b),
+        fadd(b.val(), fadd(a.val(), fneg(band(a, b)))) == bor(a, b),
+        band(a, b) == band(b, a), bor(a, b) == bor(b, a), 0 <= band(a, b) < 0x1_0000_0000, 0 <= bor(a, b) < 0x1_0000_0000,
+        or_form(a, b).val() == bor(a, b),
+{
+    lemma_or_via_and(a, b);
+    lemma_bits_u32(a, b);
+    let n = band(a, b);
+    let x = a.val(); let y = b.val();
+    assert(fneg(n) == (if n == 0 { 0int } else { P() - n }));
+    assert(fadd(y, fneg(n)) == y - n);
+    assert(fadd(x, fneg(n)) == x - n);
+    assert(fadd(x, y - n) == x + y - n);
+    assert(fadd(y, x - n) == x + y - n);
+    let u = x as u64; let v = y as u64;
+    assert(u < 0x1_0000_0000 && v < 0x1_0000_0000 ==> (u | v) < 0x1_0000_0000) by (bit_vector);
+}
 pub proof fn lemma_bits_u32(a: Felt, b: Felt)
     requires is_u32(a), is_u32(b)
     ensures 0 <= band(a, b) < 0x1_0000_0000, 0 <= bxor(a, b) < 0x1_0000_0000,
